@@ -6,6 +6,7 @@ import (
 	"berty.tech/go-orbit-db/stores/operation"
 	cid "github.com/ipfs/go-cid"
 	"sort"
+	"sync"
 	"time"
 
 	"github.com/ipfs/boxo/path"
@@ -49,4 +50,33 @@ func mustCid(s string) cid.Cid {
 		panic("harness: bad cid " + s)
 	}
 	return c
+}
+
+// manualCtx is a context the explorer ends on demand with a chosen error: context.Canceled, or
+// context.DeadlineExceeded for a deadline that expires exactly at the chosen step.
+type manualCtx struct {
+	mu   sync.Mutex
+	done chan struct{}
+	err  error
+}
+
+func newManualCtx() *manualCtx { return &manualCtx{done: make(chan struct{})} }
+
+func (c *manualCtx) Deadline() (time.Time, bool)   { return time.Time{}, false }
+func (c *manualCtx) Done() <-chan struct{}         { return c.done }
+func (c *manualCtx) Value(interface{}) interface{} { return nil }
+func (c *manualCtx) Err() error {
+	c.mu.Lock()
+	defer c.mu.Unlock()
+	return c.err
+}
+
+// end finishes the context with err (first call wins).
+func (c *manualCtx) end(err error) {
+	c.mu.Lock()
+	if c.err == nil {
+		c.err = err
+		close(c.done)
+	}
+	c.mu.Unlock()
 }
